@@ -169,7 +169,8 @@ func (g *progGen) printable() *tw.Expr {
 	return g.eg.gen(g.rt, k, rapid.IntRange(0, 2).Draw(g.rt, "pdepth"))
 }
 
-var assignNames = []string{"a", "b", "c"}
+// (A and B: names that differ from a and b only in the case of the first letter are different names)
+var assignNames = []string{"a", "b", "c", "A", "B"}
 
 func (g *progGen) literalOf(k refint.Kind) *tw.Expr {
 	switch k {
